@@ -26,6 +26,7 @@ ATTACH = {
     "close_group_validator": "src/dht/routing_maintenance/close_group_validator.rs",
     "network": "src/network.rs",
     "peer_record": "src/peer_record.rs",
+    "bootstrap_manager": "src/bootstrap/manager.rs",
 }
 
 
